@@ -14,10 +14,13 @@ pub mod zvt_builder {
     pub use super::{ZVTError, ZVTResult, Tag, ZvtCommand};
     /// abstract contract of a packet decoder (established for the real decoders in U1/U2)
     pub trait ZvtSerializer: Sized {
+        spec fn tid() -> int;
         spec fn zd_ok(b: Seq<u8>, v: Self) -> bool;
         fn zvt_deserialize(bytes: &[u8]) -> (r: ZVTResult<(Self, &[u8])>)
             ensures r matches Ok((v, rest)) ==> Self::zd_ok(bytes@, v);
     }
+    pub open spec fn tid_of<T: ZvtSerializer>(v: T) -> int { T::tid() }
+    pub open spec fn zd_ok_of<T: ZvtSerializer>(b: Seq<u8>, v: T) -> bool { T::zd_ok(b, v) }
     // the rest of the zvt_builder surface a (changed) parser may name: abstract, nothing is known about results
     pub mod length {
         pub trait Length {}
